@@ -26,7 +26,10 @@ def from_abs(a):
 
 
 def run(ctx):
+    ctx.exhaustive = False
+    ctx.exhaustive_note = 'carry tables complete over the listed boundary set; Julian-date round trip on ~12,600 sampled instants'
     from rules import shared
+    ctx.include('effect_inventory', shared.effect_inventory)   # no new process-wide mutable state (MIR statics inventory)
     ctx.include('jd_tables', shared.jd_tables)           # civil date <-> day number per (year, month) (shared, cached per source hash)
     I = ctx.interp(fuel=30000000)
     t = T(I)
